@@ -1082,6 +1082,32 @@ fn c11_scenarios(w: usize, n: usize) -> Vec<(String, Scenario)> {
             v.push((format!("{} / {} / width {} / {} threads", label, mode.label(), w, n), s));
         }
     }
+    // a first group of TWO systems (a very short writer of A, then a short reader of A that takes part in the
+    // rendezvous) beside w-1 single-system groups: what the worker of the first group does between its two
+    // systems must not keep a sibling group from running beside the reader
+    if w <= 4 {
+        let mut ops = vec![Op::Sys(crate::spec::SysSpec { name: "pre".into(), reads: vec![], writes: vec![0], time: 1, deps: vec![] })];
+        for i in 1..w {
+            ops.push(Op::Sys(crate::spec::SysSpec { name: format!("s{}", i), reads: vec![], writes: vec![], time: 3, deps: vec![] }));
+        }
+        ops.push(Op::Sys(crate::spec::SysSpec { name: "reader".into(), reads: vec![0], writes: vec![], time: 2, deps: vec![] }));
+        // the layout this relies on: one stage of w groups, the reader in the writer's group
+        let one_stage = crate::obs::layout_of(&ops, &crate::hsys::Ctx::identity_map()).map(|l| l.stages.len() == 1 && l.stages[0].len() == w && l.stages[0].iter().any(|g| g == &vec![0, w])).unwrap_or(false);
+        if one_stage {
+            for user in [true, false] {
+                for (mode, d) in [(Mode::Dispatch, 2u8), (Mode::Async, 2)] {
+                    let mut s = Scenario::plain(ops.clone(), mode, d);
+                    if user {
+                        s.user_pool = Some(n);
+                    } else {
+                        s.default_threads = Some(n);
+                    }
+                    s.rendezvous = Some(((1..=w).collect(), w as u16));
+                    v.push((format!("first group of two systems / {} / width {} / {} threads", mode.label(), w, n), s));
+                }
+            }
+        }
+    }
     // async: further dispatches issued before the first wait (each blocks the caller until the one in front
     // of it has completed) must not cost the stage in flight a pool thread
     for script in if w <= 2 { &["DDW", "DDDW", "DRDW"][..] } else { &["DDW"][..] } {
